@@ -2,7 +2,8 @@
    Only statements closed by [exact lemma], followed by Print Assumptions. *)
 From Coq Require Import ZArith List Bool.
 From S3db Require Import Base KeyOrder RowMerge.
-From S3db.proofs Require Import Selector RowMergeProofs.
+From S3db Require Import Tree Inst.
+From S3db.proofs Require Import Selector RowMergeProofs TreeProofs MergeAllProofs ConvergenceProofs.
 Import ListNotations.
 Open Scope Z_scope.
 
@@ -41,6 +42,23 @@ Proof. exact (mv_fold_grouping n S S_inv S_compat a1 l1 a2 l2). Qed.
 Theorem C01_merged_is_newest a l : S a -> Forall S l ->
   is_min _ row_rank (a :: l) (fold_left mv l a).
 Proof. exact (mv_fold_is_min n S S_inv S_compat a l). Qed.
+(* TABLE level.  A version is a well-formed tree (strictly increasing safe keys) whose entries
+   are in S.  Folding ANY two lists with the same SET of versions - any order, any number of
+   repetitions of a version - yields the same row for every key; and the fold itself is, per
+   key, the join of the entries the versions hold for that key. *)
+Theorem C01_table_order_and_repetition acc gs acc' gs' :
+  Forall (fun t => wf t /\ vals_in S t) (acc :: gs) ->
+  Forall (fun t => wf t /\ vals_in S t) (acc' :: gs') ->
+  (forall t, In t (acc :: gs) <-> In t (acc' :: gs')) ->
+  exists t1 t2, merge_versions acc gs = Some t1 /\ merge_versions acc' gs' = Some t2 /\
+                wf t1 /\ wf t2 /\ forall k, D k -> t_get k t1 = t_get k t2.
+Proof. exact (rows_converge n S S_inv S_compat acc gs acc' gs'). Qed.
+
+Theorem C01_table_lookup_is_join acc gs :
+  wf acc -> vals_in S acc -> Forall (fun t => wf t /\ vals_in S t) gs ->
+  exists t', merge_versions acc gs = Some t' /\ wf t' /\ vals_in S t' /\
+    forall k, D k -> t_get k t' = fold_left (join_opt mv (cval_eqb row_eqb)) (map (t_get k) gs) (t_get k acc).
+Proof. exact (rows_merged_lookup n S S_inv S_compat acc gs). Qed.
 End C01.
 
 (* Outside the SQL-reachable domain (rows with partial column maps, reachable through the
@@ -70,5 +88,7 @@ Print Assumptions C01_merge_values_idempotent.
 Print Assumptions C01_order_and_repetition.
 Print Assumptions C01_grouping.
 Print Assumptions C01_merged_is_newest.
+Print Assumptions C01_table_order_and_repetition.
+Print Assumptions C01_table_lookup_is_join.
 Print Assumptions C01_general_rows_not_associative_refuted.
 Print Assumptions C01_nonvacuous.
